@@ -16,7 +16,7 @@ BASES = {
     'consts': '''const A = 4;
 const B = (A + 2) * 3 - 0x10 / 2;
 const C = A << 2;
-enum E { E_A = 1, E_B = A, E_C = -1 };
+enum E { E_A = 1, E_B = A, E_C = 0xFFFFFFFF };
 typedef u16 T;
 struct S { T a; E e; u8 b[A]; };
 ''',
